@@ -223,6 +223,19 @@ theorem C08_confluence (inp1 inp2 : RunInput) (hsame : SameTasks inp1 inp2)
   ⟨Dyn.complete_runs_same_reported hs hsel h1 h2 e1 e2, Dyn.complete_runs_same_reportOf hs hsel h1 h2 e1 e2,
    fun t => Dyn.confluent_status hs h1 h2 t, Dyn.complete_runs_same_exit hs hsel h1 h2 e1 e2⟩
 
+/-- the pair monitor (P) the driver evaluates on a serial and a parallel real run (`monC08Pair`: same report per task,
+    same exit code) holds of any two complete runs of the model on ANY graph -/
+theorem C08_pair_monitor_holds (inp1 inp2 : RunInput) (hsame : SameTasks inp1 inp2)
+    (hcalc : ∀ t, inp1.calcRes t = inp2.calcRes t) (hsel : ∀ t, t ∈ inp1.sel ↔ t ∈ inp2.sel) (s1 s2 : Sys)
+    (h1 : Reach inp1 s1 ∨ PReach inp1 s1) (h2 : Reach inp2 s2 ∨ PReach inp2 s2)
+    (e1 : s1.rpc = .halted ∧ s1.halt = .none ∧ s1.stop = false)
+    (e2 : s2.rpc = .halted ∧ s2.halt = .none ∧ s2.stop = false) (nTasks : Nat) :
+    monC08Pair nTasks (trace inp1 s1) (trace inp2 s2) (exitCode s1) (exitCode s2) = true := by
+  obtain ⟨_, hrep, _, hexit⟩ := C08_confluence inp1 inp2 hsame hcalc hsel s1 s2 h1 h2 e1 e2
+  unfold monC08Pair
+  simp only [Bool.and_eq_true, List.all_eq_true, List.mem_range, beq_iff_eq]
+  exact ⟨fun t _ => hrep t, hexit⟩
+
 /-- confluence, state-wise, any graph: any two reachable states (complete or not) of any two of the transition systems
     over the same task table agree on every task finished in both and on every task reported in both -/
 theorem C08_confluence_status_dyn (inp1 inp2 : RunInput) (hsame : SameTasks inp1 inp2)
